@@ -209,7 +209,7 @@ def observe_routine(term, seed):
             if kind in ("lanczos", "Lanczos()"):
                 _, _, fam, n, tok, k = term
                 A, M = _op(seed, fam, n, tok)
-                v = P.operand(seed, n, None, tok, "lv") + 1
+                v = 2 * P.operand(seed, n, None, tok, "lv") + 1  # odd entries: never the zero vector
                 if kind == "lanczos":
                     from cola.linalg.decompositions.lanczos import lanczos
                     Q, T, _ = lanczos(A, v, max_iters=k, tol=1e-12)
@@ -220,7 +220,7 @@ def observe_routine(term, seed):
             elif kind == "arnoldi":
                 _, _, fam, n, tok, k = term
                 A, M = _op(seed, fam, n, tok)
-                v = P.operand(seed, n, None, tok, "av") + 1
+                v = 2 * P.operand(seed, n, None, tok, "av") + 1
                 from cola.linalg.decompositions.arnoldi import arnoldi
                 Q, H, _ = arnoldi(A, v, max_iters=k, tol=1e-12)
                 outs += [("Q", Q), ("H", H)]
